@@ -53,8 +53,8 @@ Theorem C15_replace_congruence : forall rho mu iota d,
 Proof. exact replace_congruence. Qed.
 Print Assumptions C15_replace_congruence.
 
-(** canonize(): on well-formed trees of fragment 1 (operands of the commutative-associative operators have one width) sorting
-    the operands preserves well-formedness, width and the value under every valuation, memory and operator interpretation.
+(** canonize(): on well-formed trees (the C05 predicate: operands of the commutative-associative operators have one width; the slots
+    of a concatenation do not overlap) sorting the operands / slots preserves well-formedness, width and the value under every valuation, memory and operator interpretation.
     (Without the one-width condition it does not: the width of an operator node is that of its FIRST operand.) *)
 Theorem C15_canonize_preserves_value : forall (ac : bool) (Q : string -> Z -> bool -> bool -> bool) e, wf ac Q e = true ->
   wf ac Q (canonize e) = true /\ size (canonize e) = size e /\ forall rho mu iota, eval rho mu iota (canonize e) = eval rho mu iota e.
